@@ -48,6 +48,9 @@ def generate(seed: int, tier: str, prop: str) -> dict:
     else:
         base = 'hreal' if r < 0.6 else ('hboundary' if r < 0.8 else 'hlow')
     cfg = {'base': base, 'hard': rng.random() < 0.3 and base != 'hlow'}
+    # per-run unique objects: the run's base (hollow bases) and every reward it mines carry the run's salt, so nothing a
+    # run validates can collide with what another run of the same worker process validated before
+    cfg['salt'] = 1 + seed % 0xfffffff0
     if base == 'hhalving':
         cfg['k'] = rng.choice([1, 1, 2, 3, 6, 29, 30, 31, 63, 64])
         cfg['j'] = rng.randrange(4)
@@ -127,13 +130,16 @@ def generate(seed: int, tier: str, prop: str) -> dict:
         x = rng.random()
         if x < 0.45:
             ops.append(gen_mine(rng))
-        elif x < 0.92:
+        elif x < 0.9:
             kind = rng.choice(own) if rng.random() < 0.7 else rng.choice(others)
             ops.append({'op': 'offer', 'kind': kind, 'tip': -1 if rng.random() < 0.5 else rng.randrange(1000),
                         'a': rng.randrange(1000), 'b': rng.randrange(1000),
                         'dt': rng.choice([1, 60, 600, rng.randrange(1, 5000)]),
                         'clock': rng.choice([0, -30, 30, rng.randrange(-30, 10000)]),
                         'via': rng.choice(['memory', 'bytes'])})
+        elif x < 0.935:
+            ops.append({'op': rng.choice(['reoffer_rejected', 'reoffer_rejected', 'rebundle_rejected']), 'n': rng.randrange(100),
+                        'via': rng.choice(['memory', 'bytes']), 'miner': rng.randrange(12), 'dt': rng.randrange(1, 100)})
         elif x < 0.95:
             ops.append({'op': 'snapshot'})
         elif x < 0.97 and prop == 'C05':
